@@ -141,8 +141,7 @@ def stepLine (st : St) (toks : List String) : St :=
           let st := if mo == o && (splitEq excT).2 == "-" then st
                     else badCorr st s!"callx {m} [{aliases}] impl[{fmtObs o} exc={(splitEq excT).2}] model[{fmtObs mo}]"
           -- judged for soundness only: the caller restricted the families himself
-          let sound := o.na || callOk (offered d) r.action o
-          if sound then st else badJudge st s!"callx {m} [{aliases}]: impl[{fmtObs o}] went to a service that is not an offered definer"
+          if callSoundOk (offered d) r.action o then st else badJudge st s!"callx {m} [{aliases}]: impl[{fmtObs o}] went to a service that is not an offered definer"
       | _, _ => badCorr st s!"callx {m}: no profile device or unknown method"
   | ["t0", t] =>
       let t0 := t.toInt!
@@ -154,7 +153,7 @@ def stepLine (st : St) (toks : List String) : St :=
           -- model: a getter whose route is none returns None without asking
           let availM := rows.map fun r => (route (ordOf st.order) Gen.C20Igd.igdServiceTypes d r).isSome
           -- judge: "available" = some offered service defines the action
-          let availJ := rows.map fun r => (offered d).any fun s => s.acts.contains r.action
+          let availJ := rows.map fun r => availSpec d r.action
           match toReadings (mask availM rs), toReadings (mask availJ rs) with
           | some rm, some rj => { st with pending := some (t.toInt!, rm, rj) }
           | _, _ => badCorr st "sample: expected six readings and six getter rows"
